@@ -2,6 +2,7 @@ import GBProofs.Props.C16
 import GBProofs.Layout
 import GBProofs.SphericalNorm
 import GBProofs.ArrayDefiniteness
+import GBProofs.OriginShift
 /-!
 # C01 / C07 — documented layout and "asymmetric = block of the union"
 `Layout.lean`: `locate_offset` / `locate_lt` (basis index ↔ (shell, segment, function): shell, then
@@ -20,3 +21,11 @@ kernel-checked orthonormality of the solid-harmonic rows the same-segment block 
 namespace GB.C01
 alias every_function_unit_normalised := overlap_array_diag_one
 end GB.C01
+
+/-! `OriginShift.lean` (C07): the entry for an order list depends only on the triple at that position
+(`momentBlock_entry_order_indep`), order (0,0,0) is the overlap block (`momentBlock_order0_eq_overlap`), and moving the origin
+changes the block by the binomial expansion in lower moments (`momentBlock_origin_shift`, `_list`, `momentBlock_dipole_shift`). -/
+namespace GB.C07
+alias block_origin_shift := momentBlock_origin_shift_list
+alias block_order_zero_is_overlap := momentBlock_order0_eq_overlap
+end GB.C07
